@@ -47,7 +47,7 @@ type InsertVal struct {
 // Stmt is a recognised statement.
 type Stmt struct {
 	Kind string // create_database create_table create_mv create_view drop rename alter insert
-	// select_max_ver select_setting select_count show_tables show_create_database
+	// select show_tables show_create_database
 	Text        string // normalised text
 	IfNotExists bool
 	IfExists    bool
@@ -84,8 +84,12 @@ type Stmt struct {
 	InsCols []string
 	InsVals []InsertVal
 
-	// selects
-	WhereVal string // k / fingerprint value
+	// select
+	Items   []SelExpr
+	Where   []Cmp
+	GroupBy []string
+	Having  []Cmp
+	Format  string
 }
 
 // IsAlter reports whether the statement is an ALTER TABLE.
@@ -328,7 +332,7 @@ func (p *parser) statement() (*Stmt, error) {
 		}
 		return &Stmt{Kind: "show_create_database", Name: QName{"", n}}, p.end()
 	case p.acceptKw("SELECT"):
-		return p.selectShape()
+		return p.selectStmt()
 	}
 	return nil, unknown("statement starts with %q", p.rest())
 }
@@ -1008,86 +1012,257 @@ func (p *parser) insert() (*Stmt, error) {
 	return st, p.end()
 }
 
-// selectShape recognises the fixed SELECT texts of update.go / rotate.go by their normalised token text.
-func (p *parser) selectShape() (*Stmt, error) {
-	start := p.pos - 1
-	toks := p.toks[start:]
-	get := func(i int) token {
-		if i < len(toks) {
-			return toks[i]
-		}
-		return token{Kind: tEOF}
+// ---------------------------------------------------------------------------------------------------------------
+// SELECT: a small real parser for single-table aggregate / projection queries, understood by what they compute:
+//
+//	SELECT item [[AS] alias] {, item …} FROM [db.]t [[AS] alias]
+//	  [WHERE pred] [GROUP BY col{, col} | (col{, col})] [HAVING pred] [FORMAT name] [;]
+//	item    := col | agg(args)            agg ∈ max min any argMax argMin count (names are case-insensitive)
+//	pred    := cmp {AND cmp} | (pred)     cmp := operand (= | == | != | <>) operand
+//	operand := col | agg(args) | literal  (exactly one side of a cmp is a literal)
+//
+// Anything else (joins, subqueries, OR, ORDER BY, LIMIT, arithmetic …) is an unknown shape.
+
+// SelExpr is a column reference or an aggregate call.
+type SelExpr struct {
+	Func  string   // "" for a plain column; lower-cased aggregate name otherwise
+	Args  []string // column names ("*" / a literal for count)
+	Alias string
+	Text  string // normalised text (the result column name when there is no alias)
+}
+
+// Cmp is one comparison  <expr> (= | !=) <literal>.
+type Cmp struct {
+	L     SelExpr
+	Neq   bool
+	Val   string
+	IsNum bool
+}
+
+var aggArity = map[string][2]int{"max": {1, 1}, "min": {1, 1}, "any": {1, 1}, "argmax": {2, 2}, "argmin": {2, 2}, "count": {0, 1}}
+
+var selectClauseKw = map[string]bool{"from": true, "where": true, "group": true, "having": true, "format": true, "order": true,
+	"limit": true, "settings": true, "union": true, "join": true, "prewhere": true, "as": true, "and": true, "or": true, "final": true,
+	"array": true, "left": true, "inner": true, "global": true, "any": false}
+
+func (p *parser) selExpr() (SelExpr, error) {
+	start := p.pos
+	t := p.peek()
+	if t.Kind != tIdent && t.Kind != tQIdent {
+		return SelExpr{}, unknown("SELECT expression at %q", p.rest())
 	}
-	match := func(from int, pattern string) (int, bool) {
-		i := from
-		for _, w := range strings.Fields(pattern) {
-			t := get(i)
-			if t.Kind == tEOF || t.Kind == tString || !strings.EqualFold(t.Val, w) {
-				return from, false
+	p.pos++
+	var e SelExpr
+	if t.Kind == tIdent && p.peekPunct("(") {
+		fn := strings.ToLower(t.Val)
+		ar, ok := aggArity[fn]
+		if !ok {
+			return e, unknown("function %q in SELECT", t.Val)
+		}
+		p.pos++
+		e.Func = fn
+		for !p.peekPunct(")") {
+			a := p.next()
+			switch {
+			case a.Kind == tIdent || a.Kind == tQIdent:
+				e.Args = append(e.Args, a.Val)
+			case fn == "count" && (a.Kind == tNumber || (a.Kind == tPunct && a.Val == "*")):
+				e.Args = append(e.Args, "*")
+			default:
+				return e, unknown("argument %q of %s()", a.String(), t.Val)
 			}
-			i++
+			if !p.acceptPunct(",") {
+				break
+			}
 		}
-		return i, true
+		if err := p.expectPunct(")"); err != nil {
+			return e, err
+		}
+		if len(e.Args) < ar[0] || len(e.Args) > ar[1] {
+			return e, unknown("%s() with %d arguments", t.Val, len(e.Args))
+		}
+	} else {
+		if t.Kind == tIdent && selectClauseKw[strings.ToLower(t.Val)] {
+			return e, unknown("SELECT expression at %q", p.src[t.Start:])
+		}
+		e.Args = []string{t.Val}
 	}
-	// SELECT max(ver) as ver FROM <t> WHERE k = <n> [FORMAT JSON]
-	if i, ok := match(0, "SELECT max ( ver ) as ver FROM"); ok {
-		p.pos = start + i
-		name, err := p.qname()
+	e.Text = norm(p.toks[start:p.pos])
+	return e, nil
+}
+
+// predicate parses  cmp {AND cmp}  with optional parentheses around the whole and around each comparison.
+func (p *parser) predicate() ([]Cmp, error) {
+	var out []Cmp
+	for {
+		if p.acceptPunct("(") {
+			in, err := p.predicate()
+			if err != nil {
+				return nil, err
+			}
+			if err := p.expectPunct(")"); err != nil {
+				return nil, err
+			}
+			out = append(out, in...)
+		} else {
+			c, err := p.comparison()
+			if err != nil {
+				return nil, err
+			}
+			out = append(out, c)
+		}
+		if p.acceptKw("AND") {
+			continue
+		}
+		if p.peekKw("OR") || p.peekKw("NOT") {
+			return nil, unknown("predicate operator at %q", p.rest())
+		}
+		return out, nil
+	}
+}
+
+func (p *parser) comparison() (Cmp, error) {
+	var c Cmp
+	lit := func() (string, bool, bool) {
+		t := p.peek()
+		if t.Kind == tString || t.Kind == tNumber {
+			p.pos++
+			return t.Val, t.Kind == tNumber, true
+		}
+		return "", false, false
+	}
+	lv, lnum, lIsLit := lit()
+	var err error
+	if !lIsLit {
+		if c.L, err = p.selExpr(); err != nil {
+			return c, err
+		}
+	}
+	op := p.next()
+	if op.Kind != tPunct {
+		return c, unknown("comparison operator %q", op.String())
+	}
+	switch op.Val {
+	case "=", "==":
+	case "!=", "<>":
+		c.Neq = true
+	default:
+		return c, unknown("comparison operator %q", op.Val)
+	}
+	if lIsLit {
+		c.Val, c.IsNum = lv, lnum
+		if c.L, err = p.selExpr(); err != nil {
+			return c, err
+		}
+		return c, nil
+	}
+	rv, rnum, ok := lit()
+	if !ok {
+		return c, unknown("comparison of two expressions at %q", p.rest())
+	}
+	c.Val, c.IsNum = rv, rnum
+	return c, nil
+}
+
+func (p *parser) selectStmt() (*Stmt, error) {
+	st := &Stmt{Kind: "select"}
+	if p.peekKw("DISTINCT") {
+		return nil, unknown("SELECT DISTINCT")
+	}
+	for {
+		e, err := p.selExpr()
 		if err != nil {
 			return nil, err
 		}
-		if err := p.expectKw("WHERE"); err != nil {
+		if p.acceptKw("AS") {
+			if e.Alias, err = p.ident(); err != nil {
+				return nil, err
+			}
+		} else if t := p.peek(); (t.Kind == tIdent && !selectClauseKw[strings.ToLower(t.Val)]) || t.Kind == tQIdent {
+			e.Alias = t.Val
+			p.pos++
+		}
+		st.Items = append(st.Items, e)
+		if !p.acceptPunct(",") {
+			break
+		}
+	}
+	if err := p.expectKw("FROM"); err != nil {
+		return nil, err
+	}
+	var err error
+	if st.Name, err = p.qname(); err != nil {
+		return nil, err
+	}
+	if p.acceptKw("AS") {
+		if _, err = p.ident(); err != nil {
 			return nil, err
 		}
-		if !p.acceptKw("k") || !p.acceptPunct("=") {
-			return nil, unknown("version lookup filter %q", p.rest())
+	}
+	if p.acceptKw("WHERE") {
+		if st.Where, err = p.predicate(); err != nil {
+			return nil, err
 		}
-		v := p.next()
-		if v.Kind != tNumber {
-			return nil, unknown("version lookup key %q", v.String())
+		for _, c := range st.Where {
+			if c.L.Func != "" {
+				return nil, unknown("aggregate %s in WHERE", c.L.Text)
+			}
 		}
-		if p.acceptKw("FORMAT") {
-			if _, err := p.ident(); err != nil {
+	}
+	if p.acceptKw("GROUP", "BY") {
+		paren := p.acceptPunct("(")
+		for {
+			c, err := p.ident()
+			if err != nil {
+				return nil, err
+			}
+			st.GroupBy = append(st.GroupBy, c)
+			if !p.acceptPunct(",") {
+				break
+			}
+		}
+		if paren {
+			if err := p.expectPunct(")"); err != nil {
 				return nil, err
 			}
 		}
-		return &Stmt{Kind: "select_max_ver", Name: name, WhereVal: v.Val}, p.end()
 	}
-	// SELECT argMax(value, inserted_at) as _value FROM <t> WHERE fingerprint = <n> GROUP BY fingerprint HAVING argMax(name, inserted_at) != ''
-	if i, ok := match(0, "SELECT argMax ( value , inserted_at ) as _value FROM"); ok {
-		p.pos = start + i
-		name, err := p.qname()
-		if err != nil {
+	if p.acceptKw("HAVING") {
+		if st.Having, err = p.predicate(); err != nil {
 			return nil, err
 		}
-		if !p.acceptKw("WHERE", "fingerprint") || !p.acceptPunct("=") {
-			return nil, unknown("settings lookup filter %q", p.rest())
-		}
-		v := p.next()
-		if v.Kind != tNumber {
-			return nil, unknown("settings lookup key %q", v.String())
-		}
-		j, ok := match(p.pos-start, "GROUP BY fingerprint HAVING argMax ( name , inserted_at ) !=")
-		if !ok {
-			return nil, unknown("settings lookup tail %q", p.rest())
-		}
-		p.pos = start + j
-		if e := p.next(); e.Kind != tString || e.Val != "" {
-			return nil, unknown("settings lookup HAVING literal %q", e.String())
-		}
-		return &Stmt{Kind: "select_setting", Name: name, WhereVal: v.Val}, p.end()
 	}
-	// SELECT count(1) FROM <t>
-	if i, ok := match(0, "SELECT count ( 1 ) FROM"); ok {
-		p.pos = start + i
-		name, err := p.qname()
-		if err != nil {
+	if p.acceptKw("FORMAT") {
+		if st.Format, err = p.ident(); err != nil {
 			return nil, err
 		}
-		return &Stmt{Kind: "select_count", Name: name}, p.end()
 	}
-	p.pos = start
-	return nil, unknown("SELECT shape %q", p.rest())
+	return st, p.end()
+}
+
+// WhereEq returns the literal a column is compared with for equality in WHERE (top-level conjunction).
+func (s *Stmt) WhereEq(col string) (string, bool) {
+	for _, c := range s.Where {
+		if !c.Neq && c.L.Func == "" && len(c.L.Args) == 1 && c.L.Args[0] == col {
+			return c.Val, true
+		}
+	}
+	return "", false
+}
+
+// IsRead reports whether the statement only reads (SELECT / SHOW).
+func (s *Stmt) IsRead() bool {
+	return s.Kind == "select" || s.Kind == "show_tables" || s.Kind == "show_create_database"
+}
+
+// InsertValue returns the value given for a column by an INSERT … VALUES statement.
+func (s *Stmt) InsertValue(col string) (InsertVal, bool) {
+	for i, c := range s.InsCols {
+		if c == col && i < len(s.InsVals) {
+			return s.InsVals[i], true
+		}
+	}
+	return InsertVal{}, false
 }
 
 // ParseTTLText parses a TTL expression list ("a + toIntervalSecond(60) TO DISK 'd', a + toIntervalDay(7)").
